@@ -3,6 +3,7 @@ package c13
 
 import (
 	"encoding/json"
+	"errors"
 	"fmt"
 	"strings"
 
@@ -55,7 +56,7 @@ type Config struct {
 	UpdateVia int `json:"update_via,omitempty"`
 }
 
-var updateVias = []string{"Router.Update", "Updates{Txn.Update}", "Updates{Txn.Update; Txn.Iter}", "Updates{Txn.Update; Txn.Snapshot}", "Txn.Update + Commit"}
+var updateVias = []string{"Router.Update", "Updates{Txn.Update}", "Updates{Txn.Update; Txn.Iter}", "Updates{Txn.Update; Txn.Snapshot}", "Txn.Update + Commit", "Updates{Txn.Handle(GET /); Txn.Update} aborted"}
 
 var aPatterns = []struct{ pat, req string }{{"/a", "/a"}, {"/f/*{p}/m", "/f/x/y/m"}, {"/a/{p}", "/a/v"}}
 
@@ -169,12 +170,34 @@ func evalConfig(cfg Config) (class, msg string) {
 			txn := f.Txn(true)
 			rtA, err = txn.Update("GET", patA, handler("HA2"), uOpts...)
 			txn.Commit()
+		case 5:
+			// an aborted managed transaction that first registers a route on the node above route A (GET /, an
+			// intermediate node with children), then updates A: nothing of it may show
+			abort := errors.New("abort")
+			var upd *fox.Route
+			err = f.Updates(func(txn *fox.Txn) error {
+				zOpts, _ := routeMws("z", 1)
+				if _, e := txn.Handle("GET", "/", handler("HZ"), zOpts...); e != nil {
+					return e
+				}
+				var e error
+				if upd, e = txn.Update("GET", patA, handler("HA2"), uOpts...); e != nil {
+					return e
+				}
+				return abort
+			})
+			if errors.Is(err, abort) {
+				err = nil
+			}
+			_ = upd
 		}
 		if err != nil {
 			return "error", err.Error()
 		}
-		aIDs = uIDs
-		hA = "HA2"
+		if cfg.UpdateVia != 5 {
+			aIDs = uIDs
+			hA = "HA2"
+		}
 	}
 	run := func(do func()) string {
 		tr = tr[:0]
